@@ -239,6 +239,45 @@ def run(ctx):
         if swaps != m_swaps or [a[0] for a in arr] != m_sorted:
             ctx.disagree("bubble:reverse_bubble_list", f"reverse_bubble_list({keys}) = {swaps} swaps, {[a[0] for a in arr]}; "
                          f"model {m_swaps}, {m_sorted}", {"keys": keys})
+    # ---- molecular integral import: OpenFermion physics-ordered integrals -> RestrictedHamiltonian --------------
+    from fqe import openfermion_utils as ofu
+    import types
+    for case in range(6 if quick else 60):
+        norb = rng.choice([2, 2, 3])
+        h1 = C01.rand_tensor(rng, norb, 1, 0.8, False)
+        h1 = h1 + h1.T
+        h2 = numpy.zeros((norb,) * 4)
+        for _ in range(6):
+            p, q, r_, s_ = (rng.randrange(norb) for _ in range(4))
+            z = float(rng.choice([-2, 2, 4]))
+            for (a, b, c, e) in ((p, q, r_, s_), (q, p, s_, r_), (s_, r_, q, p), (r_, s_, p, q)):
+                h2[a, b, c, e] += z                  # <pq|rs> = <qp|sr> = <sr|qp> = <rs|pq> (real integrals)
+        # H = sum h1[p,q] p^ q + 1/2 sum h2[p,q,r,s] p^(s1) q^(s2) r(s2) s(s1)   (OpenFermion InteractionOperator form)
+        terms = [(complex(h1[p, q]), [(2 * p + sg, 1), (2 * q + sg, 0)]) for p in range(norb) for q in range(norb)
+                 for sg in (0, 1) if h1[p, q] != 0]
+        terms += [(0.5 * h2[p, q, r_, s_], [(2 * p + s1, 1), (2 * q + s2, 1), (2 * r_ + s2, 0), (2 * s_ + s1, 0)])
+                  for p, q, r_, s_ in itertools.product(range(norb), repeat=4) for s1 in (0, 1) for s2 in (0, 1)
+                  if h2[p, q, r_, s_] != 0]
+        desc = {"norb": norb, "case": case, "h1": h1.tolist(), "h2_nonzero": int(numpy.count_nonzero(h2))}
+        for route in ("integrals_to_fqe_restricted", "molecular_data_to_restricted_fqe_op"):
+            try:
+                if route == "integrals_to_fqe_restricted":
+                    ham = ofu.integrals_to_fqe_restricted(h1.copy(), h2.copy())
+                else:
+                    mol = types.SimpleNamespace(one_body_integrals=h1.copy(), two_body_integrals=h2.copy())
+                    ham = ofu.molecular_data_to_restricted_fqe_op(mol)
+                w = C01.make_wfn(ctx, rng.choice(["single", "multi"]), norb, rng)
+                out = w.apply(ham)
+            except Exception as exc:
+                ctx.disagree(f"integrals-raises:{route}:{type(exc).__name__}", str(exc)[:300], desc)
+                continue
+            want = U.spec_apply(d, norb, U.wfn_entries(w), terms, 0)
+            bad = U.compare_wfn(out, want, tol=1e-9)
+            ctx.case(("integrals", case, route))
+            ctx.count(f"integrals:{route}")
+            if bad:
+                ctx.disagree(f"meaning:integrals:{route}", f"the Hamiltonian built from the integrals acts differently from "
+                             f"sum h1 p^ q + 1/2 sum h2 p^ q^ r s on {len(bad)} determinants, e.g. {bad[0]}", desc)
     # ---- tensor tuples ---------------------------------------------------------------------------
     from fqe.fqe_decorators import build_hamiltonian
     for case in range(12 if quick else 100):
